@@ -173,7 +173,11 @@ func vhRefEqual(x, y any) bool {
 	}
 	if cx, ok := vhCondOf(x); ok {
 		cy, ok2 := vhCondOf(y)
-		if !ok2 || cx.Keyword() != cy.Keyword() || cx.Operator().String() != cy.Operator().String() || cx.Operator().Context() != cy.Operator().Context() {
+		ox, oy := cx.Operator(), cy.Operator()
+		if !ok2 || cx.Keyword() != cy.Keyword() || (ox == nil) != (oy == nil) {
+			return false
+		}
+		if ox != nil && (ox.String() != oy.String() || ox.Context() != oy.Context()) {
 			return false
 		}
 		return vhRefEqual(cx.Expression(), cy.Expression())
@@ -253,7 +257,8 @@ func VH_C05(p []int) {
 }
 
 // Condition.IsEqual directly. p: leaf type, mut (0 none, 1 keyword, 2 operator,
-// 3 expression type, 4 same operator text but another context)
+// 3 expression type, 4 same operator text but another context, 5 no operator on
+// either side, 6 no operator on one side)
 func VH_C05_Cond(p []int) {
 	va := []int{nondetInt(), nondetInt(), nondetInt()}
 	vb := []int{nondetInt(), nondetInt(), nondetInt()}
@@ -271,6 +276,12 @@ func VH_C05_Cond(p []int) {
 	var opx, opy Operator = ComparisonOperator(ca), ComparisonOperator(cb)
 	if p[1] == 4 {
 		opx, opy = Eq, vhUserOp{"=", "assignment"}
+	}
+	if p[1] == 5 {
+		opx, opy = nil, nil // incomplete on both sides: the expressions still decide
+	}
+	if p[1] == 6 {
+		opx, opy = nil, ComparisonOperator(cb)
 	}
 	x := Cond("kw", opx, vhLeafC05(p[0], &vhVals{v: va}))
 	y := Cond(kw2, opy, vhLeafC05(t2, &vhVals{v: vb}))
